@@ -71,6 +71,10 @@ structure Scenario where
   diskPost : Disk
   cancelledPost : Bool := false
   stepHash : Nat := 0
+  /-- Rows that are no longer BUILT/CONFIRMED in the transaction that records the changed inputs
+  (another request re-declared the file or recorded that it is gone while the hashes were computed
+  outside a transaction): `Executor._applicable_input_updates` leaves them out. -/
+  notRecordable : List String := []
 
 /-- What `execute_job` does at the end. -/
 structure Completion where
@@ -90,6 +94,10 @@ structure Completion where
   success : Bool
   deriving Repr, DecidableEq
 
+/-- `Executor._applicable_input_updates` -/
+def applicable (sc : Scenario) (changed : List String) : List String :=
+  changed.filter fun p => !sc.notRecordable.contains p
+
 /-- `run` after `_run_command` and the `defer` calls (`defer` clears `success` whatever it is handed). -/
 def runAfterCommand (sc : Scenario) : Run :=
   if sc.deferCalled then { success := false, unavailable := sc.amendUnavailable, unfresh := sc.amendUnfresh }
@@ -102,7 +110,8 @@ def executeJob (sc : Scenario) : Completion :=
       drainUnexpected := false, deferredTag := false, success := false }
   else if !(changedInputs sc.dispatchInputs sc.diskPre).isEmpty then
     { ranCommand := false, hash := none, wantsDefer := false,
-      failedInputs := changedInputs sc.dispatchInputs sc.diskPre, outCause := none, drainUnexpected := true,
+      failedInputs := applicable sc (changedInputs sc.dispatchInputs sc.diskPre), outCause := none,
+      drainUnexpected := true,
       deferredTag := false, success := false }
   else if sc.cancelledPost then
     let c := classify { runAfterCommand sc with success := false } none []
@@ -115,7 +124,7 @@ def executeJob (sc : Scenario) : Completion :=
     let r := runAfterCommand sc
     let c := classify { r with success := r.success && inpCh.isEmpty && outMiss.isEmpty }
       (if inpCh.isEmpty then some sc.stepHash else none) inpCh
-    { ranCommand := true, hash := c.hash, wantsDefer := c.wantsDefer, failedInputs := c.failedInputs,
+    { ranCommand := true, hash := c.hash, wantsDefer := c.wantsDefer, failedInputs := applicable sc c.failedInputs,
       outCause := some c.run.success, drainUnexpected := !inpCh.isEmpty,
       deferredTag := !c.run.unavailable.isEmpty || !c.run.unfresh.isEmpty, success := c.run.success }
 
